@@ -368,7 +368,9 @@ def gen_case(rng, k):
             "evidence": "mirrored" if (not friendly or rng.random() < 0.6) else "independent", "phase": rng.random() < 0.6,
             # adversarial databases contain indel configurations on which the vendored realigner is known to be fragile (DESIGN.md
             # section 5 item 6); most of them are therefore also run with aldy's own CIGAR-based indel counting (indelpost=false)
-            "indelpost": True if friendly else (rng.random() < 0.3)}
+            "indelpost": True if friendly else (rng.random() < 0.3),
+            # read pairs (two mates share one fragment name, hence one phase record)
+            "paired": rng.random() < 0.4}
 
 
 def mirror_bam(desc, bam_a, bam_b0, out, pad):
@@ -394,9 +396,9 @@ def mirror_bam(desc, bam_a, bam_b0, out, pad):
         if not (r.reference_name == a["chr"] and r.reference_end > la - pad and r.reference_start < ea + pad):
             continue
         n = pysam.AlignedSegment(hdr)
-        n.query_name = f"m{k}"
+        n.query_name = r.query_name if r.is_paired else f"m{k}"      # mates keep their common fragment name
         k += 1
-        n.flag = 0
+        n.flag = (r.flag & (0x1 | 0x2 | 0x40 | 0x80)) if r.is_paired else 0
         n.reference_id = rid
         n.mapping_quality = r.mapping_quality
         q = list(r.query_qualities)
@@ -433,7 +435,8 @@ def e2e_worker(case):
         kinds = {"snp": 5, "mnp": 1, "ins": 2, "del": 3}
         y, desc = gendb.write_db(d, rng, name="GEN", strands=case["strands"], simulation_friendly=case["friendly"], pseudogene=case["pseudogene"],
                                  deletion=case["deletion"], fusions=("left",) if case.get("plant_brk") else (), n_alleles=rng.choice([4, 5, 6]),
-                                 length=rng.choice([300, 400, 500]), kinds=kinds)
+                                 length=rng.choice([300, 400, 500]), kinds=({"snp": 8} if case.get("plant_union") else kinds),
+                                 **({"union": True} if case.get("plant_union") else {}))
         fusion_spec = None
         if case.get("plant_brk"):
             # a fusion whose gene part starts at region R, and an allele defined by a substitution on the FIRST base of R (transcription
@@ -497,6 +500,12 @@ def e2e_worker(case):
             alleles = ["82.001"] + alleles[1:]
         elif fusion_spec:
             alleles = [fusion_spec, rng.choice(["1.001", "83.001"])]
+        elif case.get("plant_union"):
+            # two majors whose second sub-alleles share ONE silent variant: which copy carries it is decided by the read-phase term
+            # alone (coverage explains *1.002/*2.001 and *1.001/*2.002 equally well)
+            if "1.002" not in desc["alleles"] or "2.002" not in desc["alleles"]:
+                return dict(out, skipped="no-shared-silent-sub-allele")
+            alleles = ["1.002", "2.001"] if case["plant_union"] == 1 else ["1.001", "2.002"]
         out["alleles"] = alleles
         kinds_planted = {("ins" if v[1].startswith("ins") else "del" if v[1].startswith("del") else "sub") for al in alleles for part in al.split("#") for v in desc["alleles"][part]["variants"]}
         out["planted_has_insertion"] = "ins" in kinds_planted
@@ -509,7 +518,7 @@ def e2e_worker(case):
             g = Gene(y, genome=build)
             genes[build] = g
             bam = os.path.join(bd, "s.bam")
-            simreads.simulate(desc, build, alleles, None, L, step, bam, random.Random(case["dbseed"] + 1))
+            simreads.simulate(desc, build, alleles, None, L, step, bam, random.Random(case["dbseed"] + 1), paired=bool(case.get("paired")))
             if build == "hg38" and case.get("evidence", "independent") == "mirrored":
                 conv = os.path.join(bd, "m.bam")
                 mirror_bam(desc, os.path.join(d, "hg19", "s.bam"), bam, conv, L)
@@ -573,6 +582,11 @@ def generated_stream(chk, n, timeout_s):
     for k in range(min(4, n)):
         c = gen_case(rng, f"brk-{k}")
         c.update(strands=["+-", "-+", "++", "--"][k], friendly=True, plant_brk=True, pseudogene=True, deletion=False, n_copies=2, indelpost=(k % 2 == 0), evidence="mirrored")
+        cases.append(c)
+    for k in range(min(4, n)):
+        c = gen_case(rng, f"phase-decides-{k}")
+        c.update(strands=["+-", "-+", "++", "-+"][k], friendly=True, plant_union=1 + k % 2, pseudogene=False, deletion=False, n_copies=2,
+                 indelpost=False, evidence="mirrored", phase=True, paired=True, L_step=[100, 5])
         cases.append(c)
     ctx = mp.get_context("fork")
     results = []
